@@ -277,9 +277,12 @@ def verdictNeg (F : Feat) (p : HPt) (rIn2 : Option Q) (rOut2 m2 fJoin2 : Q) (nea
   else if nearOut && (match rIn2 with | some r => F.covered p r m2 | none => false) then .mustOut
   else .free
 
-/-- zero distance: the point set of the polygons (boundary locations are left free) -/
-def verdictZero (F : Feat) (p : HPt) : Verdict :=
-  if F.onBoundary p then .free else if F.inside p then .mustIn else .mustOut
+/-- zero distance: the point set of the polygons; locations within `√m2` of a ring are left free (the result is
+re-noded, its vertices are rounded) -/
+def verdictZero (F : Feat) (p : HPt) (m2 : Q) : Verdict :=
+  if F.onBoundary p then .free
+  else if !F.clear p m2 m2 ⟨1, 1⟩ ⟨1, 1⟩ then .free
+  else if F.inside p then .mustIn else .mustOut
 
 /-! ### membership in the returned polygonal geometry -/
 
